@@ -527,6 +527,15 @@ class Gen:
             return ("lambda", self.lambda_head(), self.expr())
         if k == "let":
             return ("let", self.bindings(4), self.expr())
+        if k == "letchain":
+            # directly nested lets (scope layers): let … in let … in let … in body
+            body = self.expr()
+            for _ in range(r.randint(2, 4)):
+                bs = self.bindings(2)
+                if not bs:
+                    bs = (("bind", (("name", self.plain_name()),), self.leaf()),)
+                body = ("let", bs, body)
+            return body
         if k == "with":
             return ("with", self.expr(), self.expr())
         if k == "assert":
@@ -542,7 +551,7 @@ class Gen:
         raise AssertionError(k)
 
 
-_COMPOUND = ["paren", "list", "set", "set", "select", "app", "app", "neg", "not", "has", "bin", "bin", "bin", "chain", "lambda", "lambda", "let", "with", "assert", "if", "str", "istr", "ipath"]
+_COMPOUND = ["paren", "list", "set", "set", "select", "app", "app", "neg", "not", "has", "bin", "bin", "bin", "chain", "lambda", "lambda", "let", "letchain", "with", "assert", "if", "str", "istr", "ipath"]
 _OPS = sorted(BINOPS)
 _CHAIN_OPS = ["++", "//", "+", "&&", "||", "->", "*", "-"]
 
